@@ -3,6 +3,7 @@ package hx
 import (
 	"fmt"
 	"math"
+	"strconv"
 
 	"pgregory.net/rapid"
 )
@@ -45,6 +46,9 @@ func GenInt(t *rapid.T) int {
 // pattern.
 func GenFloat(t *rapid.T, wide bool) float64 {
 	if wide && rapid.IntRange(0, 4).Draw(t, "fw") == 0 {
+		if rapid.Bool().Draw(t, "structured") {
+			return GenFloatStructured(t)
+		}
 		f := math.Float64frombits(rapid.Uint64().Draw(t, "fbits"))
 		if rapid.IntRange(0, 3).Draw(t, "f32") == 0 && !math.IsNaN(f) && math.Abs(f) < math.MaxFloat32 {
 			f = float64(float32(f)) // a float64 that came from a float32
@@ -55,6 +59,46 @@ func GenFloat(t *rapid.T, wide bool) float64 {
 		return rapid.SampledFrom(FloatDomain).Draw(t, "f")
 	}
 	return rapid.SampledFrom([]float64{math.NaN(), 0, 0.5, 1, -1, 2}).Draw(t, "f")
+}
+
+// GenFloatStructured draws a finite float64 from the classes where decimal conversion code has its special
+// cases: powers of two and of ten and their neighbours, short decimal literals m*10^k over a wide range of
+// k (so that few digits meet many decimals), whole numbers up to and beyond 2^63, subnormals.
+func GenFloatStructured(t *rapid.T) float64 {
+	var f float64
+	switch rapid.IntRange(0, 4).Draw(t, "fclass") {
+	case 0: // power of two
+		f = math.Ldexp(1, rapid.IntRange(-1074, 1023).Draw(t, "pow2"))
+	case 1: // power of ten
+		f, _ = strconv.ParseFloat("1e"+strconv.Itoa(rapid.IntRange(-323, 308).Draw(t, "pow10")), 64)
+	case 2: // short decimal literal
+		digits := rapid.IntRange(1, 17).Draw(t, "digits")
+		m := rapid.Int64Range(1, 9).Draw(t, "lead")
+		for i := 1; i < digits; i++ {
+			m = m*10 + rapid.Int64Range(0, 9).Draw(t, "digit")
+		}
+		f, _ = strconv.ParseFloat(strconv.FormatInt(m, 10)+"e"+strconv.Itoa(rapid.IntRange(-45, 25).Draw(t, "dexp")), 64)
+	case 3: // whole numbers
+		f = float64(rapid.Int64().Draw(t, "whole"))
+		if rapid.Bool().Draw(t, "bigger") {
+			f *= float64(rapid.SampledFrom([]int{2, 3, 10, 1000, 1 << 20}).Draw(t, "scale"))
+		}
+	default: // subnormals
+		f = math.Float64frombits(rapid.Uint64Range(1, 1<<52-1).Draw(t, "subnormal"))
+	}
+	switch rapid.IntRange(0, 5).Draw(t, "neighbour") {
+	case 0:
+		f = math.Nextafter(f, math.Inf(1))
+	case 1:
+		f = math.Nextafter(f, math.Inf(-1))
+	}
+	if rapid.IntRange(0, 3).Draw(t, "neg") == 0 {
+		f = -f
+	}
+	if math.IsInf(f, 0) || math.IsNaN(f) {
+		f = math.MaxFloat64
+	}
+	return f
 }
 
 // GenStr draws a string from the small domain, with wide=true sometimes raw bytes.
